@@ -309,6 +309,34 @@ func c07Undo(r *core.Run, p *core.Program) {
 		}
 	}
 	r.Check(okJoin && len(waits) > 0, rule, "joined-before-return", p.Pos(cb.Pos()), "block connection returns only after the undo file has been written", "CommitBlockTxs can return before the undo file is written and renamed")
+	// the undo data applied when a block is disconnected is that block's: files are named by height, so after
+	// a reorganisation undo/<h> belongs to the new branch while the snapshot on disk may still need the old
+	// block's data (restart after a crash); either the name or a test of the stored hash must tie the file
+	// to the block being disconnected
+	if ub := p.Func("lib/utxo.(*UnspentDB).UndoBlockTxs"); ub == nil {
+		r.Fail(rule, "undo-file-identity", "-", "UndoBlockTxs not found")
+	} else {
+		tied := false
+		isHash := func(a map[string]bool) bool {
+			return a["field:lib/btc.Block.Hash"] || a["field:lib/btc.BlockHeader.Hash"] || (a["param#1"] && a["field:lib/btc.Uint256.Hash"])
+		}
+		for _, c := range an.CallsTo(ub, false, "os.ReadFile", "io/ioutil.ReadFile", "os.Open") {
+			if isHash(an.Atoms(c.Common().Args[0])) {
+				tied = true
+			}
+		}
+		for _, b := range ub.Blocks {
+			iff, ok := b.Instrs[len(b.Instrs)-1].(*ssa.If)
+			if !ok {
+				continue
+			}
+			a := an.Atoms(iff.Cond)
+			if (a["call:bytes.Equal"] || a["call:bytes.Compare"]) && (a["call:os.ReadFile#0"] || a["call:io/ioutil.ReadFile#0"]) && isHash(a) {
+				tied = true
+			}
+		}
+		r.Check(tied, rule, "undo-file-identity", p.Pos(ub.Pos()), "the undo file is tied to the block being disconnected (by name or by comparing the stored hash)", "UndoBlockTxs applies the file undo/<height> without checking that it was written for the block being disconnected (its first 32 bytes, the block hash, are skipped): after a reorganisation at that height followed by a crash before the next snapshot, the restart disconnects the old block with the new block's undo data and the set silently diverges from a replay")
+	}
 	// tip changes after commit
 	c19Order(r, p, rule, "tip-after-changes", cb, []c19Ev{
 		evCall("apply the changes", "(*lib/utxo.UnspentDB).commit", -1),
@@ -348,6 +376,94 @@ func c07Blocks(r *core.Run, p *core.Program) {
 		evCall("write the queued blocks", "(*lib/chain.BlockDB).writeOne", -1),
 		fileEv("sync the index file", "(*os.File).Sync", "blockindx"),
 	})
+	// a flush drains the queue: writeAll repeats writeOne until it reports "nothing done", and writeOne reports
+	// that only when the queue was empty (a queue entry that is discarded still counts as progress)
+	if wo != nil && wa != nil {
+		var sel *ssa.Select
+		an.Instrs(wo, func(i ssa.Instruction) {
+			if x, ok := i.(*ssa.Select); ok && !x.Blocking && sel == nil {
+				sel = x
+			}
+		})
+		var bad []string
+		nret := 0
+		if sel == nil {
+			bad = append(bad, "writeOne does not poll the queue with a non-blocking receive")
+		} else {
+			emptyOn := func(cs []an.DomCond) bool {
+				for _, c := range cs {
+					bo, ok := c.If.Cond.(*ssa.BinOp)
+					if !ok || bo.Op != token.EQL {
+						continue
+					}
+					ex, ok := bo.X.(*ssa.Extract)
+					if !ok || ex.Tuple != ssa.Value(sel) || ex.Index != 0 {
+						continue
+					}
+					k := an.Expr(bo.Y)
+					if (k == "0" && !c.True) || (k == "-1" && c.True) {
+						return true // the default branch: nothing was queued
+					}
+				}
+				return false
+			}
+			for _, b := range wo.Blocks {
+				ret, ok := b.Instrs[len(b.Instrs)-1].(*ssa.Return)
+				if !ok || len(ret.Results) != 1 {
+					continue
+				}
+				nret++
+				check := func(v ssa.Value, cs []an.DomCond, where string) {
+					switch an.Expr(v) {
+					case "true":
+					case "false":
+						if !emptyOn(cs) {
+							bad = append(bad, "writeOne reports no progress at "+where+" although an entry was taken from the queue")
+						}
+					default:
+						bad = append(bad, "writeOne's result at "+where+" is not a constant")
+					}
+				}
+				if ph, ok := ret.Results[0].(*ssa.Phi); ok && ph.Block() == b {
+					for k, e := range ph.Edges {
+						check(e, an.EdgeConds(b.Preds[k], b), p.Pos(ret.Pos()))
+					}
+				} else {
+					check(ret.Results[0], an.DomConds(b), p.Pos(ret.Pos()))
+				}
+			}
+		}
+		// writeAll: the loop continues exactly while writeOne returns true
+		okLoop := false
+		for _, c := range c13Calls(wa, "(*lib/chain.BlockDB).writeOne") {
+			if iff, ok := c.Block().Instrs[len(c.Block().Instrs)-1].(*ssa.If); ok && iff.Cond == ssa.Value(c) {
+				// the true successor leads back to the call
+				seen := map[*ssa.BasicBlock]bool{}
+				var walk func(x *ssa.BasicBlock) bool
+				walk = func(x *ssa.BasicBlock) bool {
+					if x == c.Block() {
+						return true
+					}
+					if seen[x] {
+						return false
+					}
+					seen[x] = true
+					for _, s := range x.Succs {
+						if walk(s) {
+							return true
+						}
+					}
+					return false
+				}
+				okLoop = walk(c.Block().Succs[0])
+			}
+		}
+		if !okLoop {
+			bad = append(bad, "writeAll does not repeat writeOne while it reports progress")
+		}
+		sort.Strings(bad)
+		r.Check(len(bad) == 0 && nret >= 2, rule, "flush-drains-queue", p.Pos(wo.Pos()), fmt.Sprintf("%d returns of writeOne: false only on the empty-queue branch; writeAll loops on true", nret), strings.Join(bad, "; "))
+	}
 	lb := p.Func("lib/chain.(*BlockDB).LoadBlockIndex")
 	if lb != nil {
 		// a short read leaves the loop
